@@ -100,9 +100,17 @@ def run(repo: Repo, sim: str, symbols=("AAA-USDT", "BBB-USDT"), minutes=6, timef
     if not repo.has_func("jesse/services/candle.py", "generate_candle_from_one_minutes") or not repo.has_func("jesse/modes/utils.py", "save_daily_portfolio_balance"):
         raise AnalysisError("anchor function generate_candle_from_one_minutes / save_daily_portfolio_balance not found")
     events: List[Tuple] = []
+    app_box: List = []
     candles = make_candles(tuple(symbols) + tuple(data_symbols), minutes, light)
     stubs = W.base_stubs()
     fast = sim == "_skip_simulator"
+
+    def clock():
+        """the simulated clock (store.app.time) in minutes after the session start, if it is a concrete number"""
+        t = app_box[0].attrs.get("time") if app_box else None
+        if isinstance(t, R) and t.is_const():
+            return (t.const_value() - T0) / MINUTE
+        return None
 
     def rec_match(it, a, k):
         c, sym = a[0], a[2]
@@ -112,7 +120,7 @@ def run(repo: Repo, sim: str, symbols=("AAA-USDT", "BBB-USDT"), minutes=6, timef
             rows = [c]
         else:
             raise AnalysisError(f"{sim}: the matcher is called with {c!r}")
-        events.append(("match", sym, minute_of(rows[0]), len(rows), None if light else rows))
+        events.append(("match", sym, minute_of(rows[0]), len(rows), None if light else rows, clock()))
         for r in rows:                   # the real matcher stores the 1m candles it was given
             put(sym, "1m", r)
     for nm in ("_simulate_price_change_effect", "_simulate_price_change_effect_multiple_candles"):
@@ -197,6 +205,7 @@ def run(repo: Repo, sim: str, symbols=("AAA-USDT", "BBB-USDT"), minutes=6, timef
     class AppObj(Obj):
         pass
     app = Obj("AppState", name="store.app", attrs={"time": num(T0)}, open_world=True)
+    app_box.append(app)
     it.overrides[f"{W.STORE}:store"] = Obj("StoreClass", name="store", attrs={"candles": cs, "orders": so, "app": app}, open_world=True)
     routes = []
     for s in symbols:
